@@ -3,7 +3,10 @@
 
 use crate::fmt::*;
 use crate::oracle::{interesting_varints, varint_patterns};
+use crate::pgen::*;
 use crate::report::Rng;
+
+pub const KINDS: [&str; 6] = ["UnexpectedEof", "ConnectionReset", "TimedOut", "BrokenPipe", "WouldBlock", "Other"];
 
 pub fn gen(stream: &str, tier: &str, seed: u64) -> Vec<String> {
     let mut rng = Rng::new(seed ^ 0xC0FFEE);
@@ -141,6 +144,153 @@ pub fn gen(stream: &str, tier: &str, seed: u64) -> Vec<String> {
                 let bytes: Vec<u8> = (0..len).map(|_| if rng.chance(1, 2) { rng.next() as u8 } else { *rng.pick(&[0x41u8, 0xc3, 0xa9, 0xe4, 0xbd, 0xa0, 0xf0, 0x9f, 0x98, 0x80]) }).collect();
                 out.push(format!("utf8 {}", hex_or_dash(&bytes)));
             }
+        }
+        "v3enc" => {
+            let n = if thorough { 30_000 } else { 3_000 };
+            for i in 0..n {
+                let sz = Sizes { big: i % 50 == 0 };
+                let p = gen_v3(&mut rng, i % V3_TYPES, sz);
+                out.push(format!("enc v3 {}", crate::v3text::show(&p)));
+            }
+            // just outside the valid domain
+            for extra in [
+                "enc v3 puback 0",
+                "enc v3 publish 0 0 1 0 61 -",
+                "enc v3 connect 5 1 60 63 ~ ~ ~",
+                "enc v3 subscribe 1 0",
+                "enc v3 unsubscribe 1 0",
+                "enc v3 publish 0 0 0 ~ 612b -",
+                "enc v3 subscribe 1 1 2b78:0",
+                "enc v3 suback 1 1 128",
+                "enc v3 connack 0 6",
+                "enc v3 publish 0 0 3 1 61 -",
+            ] {
+                out.push(extra.to_string());
+            }
+            let big = "61".repeat(65536);
+            out.push(format!("enc v3 connect 4 1 60 {} ~ ~ ~", big));
+            out.push(format!("enc v3 publish 0 0 0 ~ 61 {}", "00".repeat(70000)));
+        }
+        "v3dec" | "v3poll" | "v3fault" => {
+            let n = if thorough { 20_000 } else { 2_000 };
+            for i in 0..n {
+                let sz = Sizes { big: i % 100 == 0 };
+                let p = gen_v3(&mut rng, i % V3_TYPES, sz);
+                let enc = match p.encode() {
+                    Ok(e) => e.as_ref().to_vec(),
+                    Err(_) => continue,
+                };
+                let mut variants: Vec<Vec<u8>> = vec![enc.clone()];
+                let mut with_tail = enc.clone();
+                with_tail.extend_from_slice(&[0xc0, 0x00, 0x30]);
+                variants.push(with_tail);
+                for _ in 0..3 {
+                    let mut m = mutate(&mut rng, &enc);
+                    if rng.chance(1, 4) {
+                        m = mutate(&mut rng, &m);
+                    }
+                    variants.push(m);
+                }
+                for v in variants {
+                    let h = hex_or_dash(&v);
+                    match stream {
+                        "v3dec" => {
+                            out.push(format!("dec v3 {}", h));
+                            out.push(format!("deca v3 {} eof", h));
+                            out.push(format!("poll v3 {} - eof", h));
+                            out.push(format!("hdr v3 {}", h));
+                        }
+                        "v3poll" => {
+                            out.push(format!("poll v3 {} {} eof", h, gen_sched(&mut rng, v.len())));
+                            out.push(format!("poll v3 {} {} err:{}", h, gen_sched(&mut rng, v.len()), rng.pick(&KINDS)));
+                        }
+                        _ => {
+                            if v.len() <= 300 {
+                                let k = rng.below(v.len() as u64 + 1) as usize;
+                                let kind = rng.pick(&KINDS);
+                                out.push(format!("deca v3 {} err:{}", hex_or_dash(&v[..k]), kind));
+                                out.push(format!("poll v3 {} {} err:{}", hex_or_dash(&v[..k]), gen_sched(&mut rng, k), kind));
+                                out.push(format!("deca v3 {} eof", hex_or_dash(&v[..k])));
+                                out.push(format!("dec v3 {}", hex_or_dash(&v[..k])));
+                            }
+                        }
+                    }
+                }
+            }
+            if stream == "v3poll" {
+                // exhaustive compositions (+ Pending before any read, drop at any Pending) for short packets of every type
+                for t in 0..V3_TYPES {
+                    let mut tries = 0;
+                    loop {
+                        tries += 1;
+                        let p = gen_v3(&mut rng, t, Sizes { big: false });
+                        let enc = p.encode().unwrap().as_ref().to_vec();
+                        if enc.len() <= (if thorough { 11 } else { 9 }) || tries > 200 {
+                            if enc.len() > 12 {
+                                break;
+                            }
+                            for comp in compositions(enc.len()) {
+                                let plain: Vec<String> = comp.iter().map(|c| format!("c{}", c)).collect();
+                                out.push(format!("poll v3 {} {} eof", hex(&enc), plain.join(",")));
+                                // Pending (with drop) before a read chosen by the composition's shape
+                                let mut withp: Vec<String> = Vec::new();
+                                for (j, c) in comp.iter().enumerate() {
+                                    if (j + comp.len()) % 2 == 0 {
+                                        withp.push(if j % 3 == 0 { "d".into() } else { "p".into() });
+                                    }
+                                    withp.push(format!("c{}", c));
+                                }
+                                out.push(format!("poll v3 {} {} eof", hex(&enc), withp.join(",")));
+                            }
+                            break;
+                        }
+                    }
+                }
+            }
+        }
+        "v3short" => {
+            // every string of length <= 2, every 2-byte header followed by short bodies
+            out.push("dec v3 -".into());
+            out.push("poll v3 - - eof".into());
+            for a in 0..=255u8 {
+                out.push(format!("dec v3 {}", hex(&[a])));
+                out.push(format!("poll v3 {} - eof", hex(&[a])));
+                out.push(format!("hdr v3 {}", hex(&[a])));
+            }
+            for a in 0..=255u8 {
+                for b in 0..=255u8 {
+                    let h = hex(&[a, b]);
+                    out.push(format!("dec v3 {}", h));
+                    out.push(format!("poll v3 {} - eof", h));
+                    if thorough || b % 16 == 0 {
+                        out.push(format!("hdr v3 {}", h));
+                    }
+                }
+            }
+            let bodies: [&[u8]; 8] = [&[0, 0], &[0, 1], &[0, 1, 0], &[0, 1, 0x61], &[0, 1, 0x61, 0], &[0, 0, 0, 1], &[0, 4, 0x4d, 0x51, 0x54, 0x54, 4, 2, 0, 0, 0, 0], &[0xff, 0xff, 0xff]];
+            for a in 0..=255u8 {
+                for body in bodies {
+                    for l in [body.len() as u8, body.len() as u8 + 1, body.len().saturating_sub(1) as u8] {
+                        let mut f = vec![a, l];
+                        f.extend_from_slice(body);
+                        out.push(format!("dec v3 {}", hex(&f)));
+                        out.push(format!("poll v3 {} - eof", hex(&f)));
+                    }
+                }
+            }
+        }
+        "proto" => {
+            for name in [&b"MQTT"[..], b"MQIsdp", b"MQTt", b"", b"MQTTT", b"MQ\xff"] {
+                for level in 0..=255u8 {
+                    let mut f = Vec::new();
+                    f.extend_from_slice(&(name.len() as u16).to_be_bytes());
+                    f.extend_from_slice(name);
+                    f.push(level);
+                    out.push(format!("proto {}", hex(&f)));
+                }
+            }
+            out.push("proto 0004".into());
+            out.push("proto -".into());
         }
         other => panic!("unknown stream {other}"),
     }
